@@ -12,8 +12,8 @@
       to identifiers; [Node.identifier_from] is the identity).  [None] and the empty string
       [''] (both occur in [_verify_identify_inputs]) are two distinguished values of [A] that
       every generated function takes as parameters [py_None] / [py_empty_str]; the theorems
-      assume that the node arguments differ from [py_None] (and, where the Python code compares
-      a node with [''], from [py_empty_str]).
+      about the two-node functions assume that the second node differs from [py_None] (a node
+      equal to it would be read as an omitted argument).
     - A [CausalGraph] that is a DAG (the only graphs on which these functions do not raise
       [TypeError]) and a [networkx.DiGraph] are both a [digraph A]: [verts] = the nodes,
       [arcs] = the directed edges.  All graph-valued operations keep [verts] unchanged.
